@@ -63,7 +63,7 @@ func (c cfgT) sub() []byte {
 
 func genCfg(t *rapid.T) cfgT {
 	c := cfgT{Prefix: rapid.Bool().Draw(t, "prefix"), Prune: rapid.IntRange(0, 3).Draw(t, "prune") == 0,
-		MemTree: rapid.IntRange(0, 3).Draw(t, "memTree") == 0, MemVal: rapid.Bool().Draw(t, "memVal"), LevelDB: rapid.IntRange(0, 3).Draw(t, "leveldb") > 0}
+		MemTree: rapid.IntRange(0, 4).Draw(t, "memTree") == 0, MemVal: rapid.Bool().Draw(t, "memVal"), LevelDB: rapid.IntRange(0, 3).Draw(t, "leveldb") > 0}
 	// the in-memory test backend fails a batch that deletes a missing key ("leveldb: not found"), which the prune
 	// bookkeeping of a fork does routinely and LevelDB accepts; backend differences are C06's subject, so pruning
 	// configurations run on LevelDB, as deployed nodes do
@@ -91,7 +91,7 @@ func open(c cfgT, dir string, withQueue bool) *fixture {
 		driver = "leveldb"
 	}
 	f := &fixture{c: c, dir: dir}
-	f.st = mavlstore.New(&types.Store{Name: "mavl", Driver: driver, DbPath: dir, DbCache: 8}, c.sub(), nil).(*mavlstore.Store)
+	f.st = mavlstore.New(&types.Store{Name: "mavl", Driver: driver, DbPath: dir, DbCache: 4}, c.sub(), nil).(*mavlstore.Store)
 	if withQueue {
 		f.q = queue.New("channel")
 		f.st.SetQueueClient(f.q.Client())
